@@ -15,7 +15,8 @@
    - [fresh k]: [k] is one of the three decoders a response head installs. *)
 From AV Require Import Lib.Base Gen.Consts H1.Chunked H1.PayloadDec H1.Framing
   Client.ClientCodec Client.PlStream Client.Pool Client.Conn Client.RespHead
-  Client.RespDecProofs Client.BodyProofs Client.ClientProofs Client.PoolProofs.
+  Client.RespDecProofs Client.BodyProofs Client.ClientProofs Client.PoolProofs
+  Client.PoolOwnership Client.LeftoverProofs Client.RespHeadLaws.
 
 (* 1. Segmentation independence of the response body: two ways of cutting the same bytes into
       reads give the same body, the same ending and the same fate of the connection. *)
@@ -129,6 +130,12 @@ Theorem C17_refuted_F11 :
     c_limit c = 1 /\ lenN (open_conns (run_pool (pool0 c) ops)) = 2.
 Proof. exists (mk_cfg 1 15000 75000), f11_witness. split; [reflexivity|exact f11_refutes]. Qed.
 
+(* Exclusive ownership, every history: no connection occurs twice among (held by requests in
+   flight ++ idle in the pool): never handed to two acquirers, never both idle and in use. *)
+Theorem C17_exclusive_ownership : forall (c : cfg) (ops : list pop),
+  NoDup (open_conns (run_pool (pool0 c) ops)).
+Proof. exact exclusive_ownership. Qed.
+
 (* 8. No leftovers: the response returned for a request is the peer's final response to it.
       FALSE of the tree as it is (finding F17, class: the peer sends a 1xx head other than 101).
       Refutation: the peer answers request 1 with `103` and (after a further request arrived)
@@ -166,15 +173,62 @@ Theorem C17_no_leftovers_partial_with_proposed_F17 :
     [EW; ED (hex103 ++ resp_first); EW; ED resp_second] =
   [OResp 200 (Some (BOk body_first)); OResp 200 (Some (BOk body_second))].
 Proof. split; [exact f17_fixed_witness|exact f17_fixed_same_segment]. Qed.
-(* FULL STATEMENT of no-leftovers (not proved for either variant; kept for the record):
-     for scripts whose bytes are exactly [interim heads (none, for the tree as it is)], one final
-     head and its framed body, and every segmentation / gating of them, the k-th outcome of
-     [conn_run simple_rhead max v reqs (concat scripts)] is either an error or the (status, body)
-     of script k.
-   Missing: the head-level counterpart of BodyProofs.read_body_run ([read_head] as a function of
-   the concatenated stream, under prefix-stability laws of the tokenizer), and monotonicity of the
-   whole-stream semantics under extension.  The correspondence check exercises this statement on
-   every generated sequence (oracle: "response k is the server's k-th final response"). *)
+(* 9. No leftovers, in general.  The peer's behaviour on one connection: [script blocks fc] =
+      wait for a request, send the segments of block 1, wait, send block 2, ... and finally close
+      ([fc = true]) or not.  [conn_run] = requests sent one after the other on that connection as
+      long as it is reused (released by the previous exchange AND found `Live` by the pool's check);
+      a request is (HEAD?, body read to the end? / dropped early).
+
+   (a) Structural, every tokenizer and both variants: the k-th outcome is the outcome of the
+       exchange run on block k ALONE - no byte of another block is read, whatever was dropped. *)
+Theorem C17_no_leftovers_structural : forall (hp : bytes -> rhead_res) (maxb : N) (v : variant)
+    (reqs : list (bool * bool)) (blocks : list block) (fc : bool),
+  (length reqs <= length blocks)%nat ->
+  exists n, conn_run hp maxb v reqs (script blocks fc) = firstn n (intended hp maxb v reqs blocks fc).
+Proof. exact no_leftovers_blocks. Qed.
+
+(* (b) Head-level segmentation (tree as it is), under the prefix-stability laws [hp_laws] of the
+       head tokenizer: the outcome and the connection's fate of a WHOLE exchange (head and body)
+       are the same for any two segmentations of the same bytes (heads below MAX_BUFFER_SIZE). *)
+Theorem C17_exchange_segmentation : forall (hp : bytes -> rhead_res) (maxb : N),
+  hp_laws hp ->
+  forall (is_head read_all : bool) (segs1 segs2 : list bytes) (closed : bool),
+  nonempty segs1 -> nonempty segs2 -> concat segs1 = concat segs2 ->
+  lenN (concat segs1) < maxb ->
+  let x1 := exchange hp maxb v_orig is_head read_all segs1 closed in
+  let x2 := exchange hp maxb v_orig is_head read_all segs2 closed in
+  x_out x1 = x_out x2 /\ x_fate x1 = x_fate x2.
+Proof. intros hp maxb L. exact (exchange_segmentation hp maxb v_orig L eq_refl). Qed.
+
+(* (c) Together: the response returned for request k on a reused connection is what the bytes of
+       block k mean as one response ([exchange_sem], a function of [concat block_k] only), for
+       every sequence of exchanges, every segmentation, early-dropped bodies included. *)
+Theorem C17_no_leftovers : forall (hp : bytes -> rhead_res) (maxb : N),
+  hp_laws hp ->
+  forall (reqs : list (bool * bool)) (blocks : list block) (fc : bool),
+  blocks_ok maxb blocks -> (length reqs <= length blocks)%nat ->
+  exists n, conn_run hp maxb v_orig reqs (script blocks fc) =
+            firstn n (owed hp maxb v_orig reqs blocks fc).
+Proof. intros hp maxb L. exact (no_leftovers hp maxb v_orig L eq_refl). Qed.
+
+(* (d) ... and outside the class of F17 (the peer sends no 1xx head other than 101) that response
+       is a FINAL one: the server's k-th final response. *)
+Theorem C17_owed_is_final_outside_known_F17 : forall (hp : bytes -> rhead_res) (maxb : N) (v : variant)
+    (is_head read_all : bool) (s : bytes) (closed : bool) (st : N) b,
+  no_interim_heads hp ->
+  fst (exchange_sem hp maxb v is_head read_all s closed) = OResp st b ->
+  (100 <=? st) && (st <? 200) && negb (st =? 101) = false.
+Proof. exact owed_final. Qed.
+
+(* the laws are satisfiable: the tokenizer of the driver (Client/RespHead.v) has them, so (b), (c)
+   hold outright for it.  For httparse they are an assumption (a streaming parser restarted on
+   the grown buffer: a complete head is not changed by later bytes, a rejected one stays rejected). *)
+Theorem C17_tokenizer_laws_satisfiable : hp_laws simple_rhead.
+Proof. exact simple_rhead_laws. Qed.
+(* NOT covered (kept for the record): gates INSIDE a response (the peer stops in the middle of a
+   response until a further request arrives: the exchange stalls = time-out error; needs
+   monotonicity of [exchange_sem] under extension of the stream), the interim-head loop of the
+   proposed F17 patch at head level, heads of MAX_BUFFER_SIZE and more (finding F19 territory). *)
 
 (* non-vacuity: a chunked body cut into three reads, keep-alive: delivered whole and released *)
 Example C17_example :
